@@ -80,6 +80,7 @@ def run(ctx):
     from .pitfalls import rule_loop_flags_monotone
     ctx.do(rule_loop_flags_monotone, "C04.flag-back", ("stix2.base", "stix2.properties"))
     ctx.do(rule_reference_flag_truth_table)
+    ctx.do(rule_detecting_slot_kinds)
     # every value goes through its cleaner: the constructor pipeline (C02's clauses) is what applies the refusal at all
     from . import C02 as _C02
     ctx.do_as(_C02.rule_init_pipeline, {"C02.init-pipeline": "C04.every-value-cleaned"})
@@ -1100,3 +1101,52 @@ def rule_reference_flag_truth_table(ctx):
               "the flag of a reference is not `unregistered or x-prefixed`: %s -- a reference to such a type is admitted with "
               "customisation disallowed (or a plain reference is flagged)" % "; ".join(wrong), file=fi.module.relpath, line=a_.lineno,
               function=fi.qualname, expected="not is_object(type, version) or type.startswith('x-')", found=norm(a_.value))
+
+
+# property kinds whose clean() is what DETECTS customisation below the top level (names outside the hash vocabulary, extension
+# keys, reference target types, unregistered members / observables, embedded objects with custom properties)
+DETECTING_KINDS = ("HashesProperty", "ExtensionsProperty", "ReferenceProperty", "EmbeddedObjectProperty", "STIXObjectProperty",
+                   "ObservableProperty", "OpenVocabProperty")
+
+
+def rule_detecting_slot_kinds(ctx, R="C04.flag-back"):
+    """Customisation below the top level is detected by the CLEANER of the slot it sits in: a hash algorithm outside the
+    version's vocabulary is custom content because the slot is a HashesProperty; declared as a plain DictionaryProperty the
+    same slot admits any key in strict mode and never raises the flag.  Every slot the specification model gives one of the
+    detecting kinds has that kind in the code (slot tables of all classes of both versions against spec/stix2x.json)."""
+    from .C02 import table_diffs
+    run = ctx.run
+    tm, diffs, s20, s21, dec = table_diffs(ctx)
+    n = 0
+    bad = {}
+    for d in diffs:
+        if d.attr == "kind" and any(k_ in str(d.expected) for k_ in DETECTING_KINDS):
+            bad[(d.version, d.cls, d.slot)] = d
+
+    def kinds_of(spec):
+        if isinstance(spec, dict):
+            if spec.get("kind") in DETECTING_KINDS:
+                yield spec["kind"]
+            for v_ in spec.values():
+                for k_ in kinds_of(v_):
+                    yield k_
+        elif isinstance(spec, list):
+            for v_ in spec:
+                for k_ in kinds_of(v_):
+                    yield k_
+    for (v, cname), r in sorted(tm.classes.items()):
+        for sname, spec in r["slots"]:
+            d = bad.pop((v, cname, sname), None)
+            if d is None and not list(kinds_of(spec)):
+                continue
+            n += 1
+            run.check(d is None, R, key(r["file"], cname, "%s.detecting-kind" % sname),
+                      "%s/%s.%s is not declared with the property kind that detects customisation in it: content the "
+                      "specification does not define there is admitted in strict mode and not flagged" % (v, cname, sname),
+                      file=r["file"], line=r["line"], function=cname, expected=d.expected if d else None, found=d.found if d else None)
+    for (v, cname, sname), d in sorted(bad.items()):
+        run.violation(R, key(d.file or "?", cname, "%s.detecting-kind" % sname),
+                      "%s/%s.%s: the slot that detects customisation is missing / of another kind" % (v, cname, sname),
+                      file=d.file, line=d.line, function=cname, expected=d.expected, found=d.found)
+    if n < 150:
+        raise AnalysisError("fewer than 150 customisation-detecting slots found (%d): table extraction lost" % n)
